@@ -172,6 +172,9 @@ static const char *word_text(const char *k)
 {
     if (!strcmp(k, "known")) return "forward";
     if (!strcmp(k, "alt")) return "forward(2)";
+    if (!strcmp(k, "altnew")) return "forward(7)";          /* new alternate of an existing base word */
+    if (!strcmp(k, "altmissing")) return "zzyzxqq(2)";      /* alternate of a base word that is not in the dictionary */
+    if (!strncmp(k, "altofnew", 8)) { static char b2[32]; snprintf(b2, sizeof(b2), "new%s(2)", k + 8); return b2; }
     if (!strcmp(k, "filler")) return "<sil>";
     if (!strcmp(k, "unknown")) return "zzyzxqq";
     if (!strcmp(k, "empty")) return "";
@@ -220,6 +223,7 @@ static void config_args(config_t *c, int argc, char **argv)
     int i;
     for (i = 0; i + 1 < argc; i += 2) {
         if (!strcmp(argv[i], "dict")) config_set_str(c, "dict", repo_path(3, argv[i + 1]));
+        else if (!strcmp(argv[i], "sdict")) { snprintf(pathbuf[3], sizeof(pathbuf[3]), "%s/%s", SCRATCH, argv[i + 1]); config_set_str(c, "dict", pathbuf[3]); }
         else if (!strcmp(argv[i], "logfn")) { snprintf(pathbuf[4], sizeof(pathbuf[4]), "%s/%s", SCRATCH, argv[i + 1]); config_set_str(c, "logfn", pathbuf[4]); }
         else config_set_str(c, argv[i], argv[i + 1]);
     }
